@@ -302,3 +302,6 @@ func c36Severity(class string) int {
 	}
 	return 6
 }
+
+// WarmupRuns: one configuration is enough (no process-wide lazy state matters here).
+func (c36Engine) WarmupRuns() int { return 1 }
